@@ -295,8 +295,104 @@ fn sc_output_builder(ctx: &mut Ctx) {
     }
 }
 
+/// Change creation around a CBOR width boundary of the change coin: the price per byte is derived
+/// from the probed size of the change output so that its minimum lands just below 2^16 / 2^32, and
+/// the input coin is swept so that the leftover walks across the boundary in steps smaller than the
+/// window in which the wider coin makes the output too small.
+fn sc_change_boundary(ctx: &mut Ctx) {
+    let boundary: u64 = [1u64 << 16, 1 << 32][ctx.choose_free(2)];
+    let bundle = ctx.choose_free(3);
+    let change_kind = ctx.choose_free(3);
+    let dc = ctx.choose_free(3) as i64 - 1;
+    let k = ctx.choose_free(64) as u64;
+    let method = ctx.choose_free(2);
+    let policy = |i: u8| ScriptHash::from_bytes(vec![0x50 + i; 28]).unwrap();
+    let mut ma = MultiAsset::new();
+    match bundle {
+        0 => {
+            ma.set_asset(&policy(0), &AssetName::new(b"tokn".to_vec()).unwrap(), &bn(7));
+        }
+        1 => {
+            ma.set_asset(&policy(0), &AssetName::new(vec![]).unwrap(), &bn(1));
+            ma.set_asset(&policy(1), &AssetName::new(vec![0xaa; 32]).unwrap(), &bn(1 << 33));
+        }
+        _ => {
+            for j in 0..5u8 {
+                ma.set_asset(&policy(j % 2), &AssetName::new(vec![j; (j as usize) * 3]).unwrap(), &bn(1 + j as u64));
+            }
+        }
+    }
+    let change = match change_kind {
+        0 => base_addr(3, 1),
+        1 => enterprise_addr(3),
+        _ => {
+            let r = crate::props::c11::RefByron { root: vec![0x3c; 28], payload: Some([vec![0x58, 0x1e], vec![0x77; 30]].concat()), magic: None, typ: 0 };
+            ByronAddress::from_bytes(crate::props::c11::byron_bytes(&r)).unwrap().to_address()
+        }
+    };
+    // probe: the change output carrying the whole bundle with a coin just below the boundary
+    let probe = TransactionOutput::new(&change, &Value::new_with_assets(&bn(boundary - 1), &ma));
+    let s_narrow = size_of(&probe) as u64;
+    let cpb = ((boundary - 1) / (160 + s_narrow)) as i64 + dc;
+    if cpb < 1 {
+        return;
+    }
+    let cpb = cpb as u64;
+    let mut p = Params::mainnet();
+    p.coins_per_byte = cpb;
+    let out_coin = cpb * 400;
+    // fee is about 170k..180k lovelace here; the leftover walks from boundary-1500 to boundary+1700
+    let input_coin = out_coin + 172_000 + boundary - 1500 + k * 50;
+    let mut tb = TransactionBuilder::new(&p.config());
+    let mut ib = TxInputsBuilder::new();
+    ib.add_regular_utxo(&TransactionUnspentOutput::new(&crate::builder::op_outpoint(0), &TransactionOutput::new(&enterprise_addr(0), &Value::new_with_assets(&bn(input_coin), &ma)))).unwrap();
+    tb.set_inputs(&ib);
+    if tb.add_output(&TransactionOutput::new(&enterprise_addr(2), &Value::new(&bn(out_coin)))).is_err() {
+        return ctx.hit("boundary:requested-output-refused");
+    }
+    ctx.observe(&(boundary, bundle, change_kind, dc, k, method));
+    let what = format!("boundary {} bundle {} change address kind {} coins_per_byte {} input coin {} method {}", boundary, bundle, change_kind, cpb, input_coin, method);
+    ctx.set_sample(|| what.clone());
+    let r = if method == 0 {
+        guard(|| tb.add_change_if_needed(&change))
+    } else {
+        let mut pool = TransactionUnspentOutputs::new();
+        pool.add(&TransactionUnspentOutput::new(&crate::builder::op_outpoint(1), &TransactionOutput::new(&enterprise_addr(1), &Value::new(&bn(3_000_000)))));
+        guard(|| tb.add_inputs_from_and_change(&pool, CoinSelectionStrategyCIP2::LargestFirstMultiAsset, &ChangeConfig::new(&change)))
+    };
+    match r {
+        Err(pn) => return ctx.violation(panic_sig(P, "change-boundary", &pn), format!("{} : {}", what, pn.msg)),
+        Ok(Err(_)) => return ctx.hit("boundary:balancing-refuses"),
+        Ok(Ok(_)) => {}
+    }
+    let tx = match guard(|| tb.build_tx()) {
+        Ok(Ok(t)) => t.to_bytes(),
+        _ => return ctx.hit("boundary:build-refuses"),
+    };
+    ctx.compared();
+    let t = match crate::ledger::parse_tx(&tx) {
+        Ok(t) => t,
+        Err(e) => return ctx.violation(format!("{}/oracle-cannot-parse", P), e),
+    };
+    ctx.hit("boundary:built");
+    for (i, o) in t.outputs.iter().enumerate() {
+        let need = cpb as u128 * (160 + o.size as u128);
+        if o.value.coin < need {
+            ctx.violation(format!("{}/builder-output-below-min-ada/output/{}", P, if i == 0 { "requested" } else { "created" }), format!("output #{} carries {} < {} = {} x (160 + {}) ; {}", i, o.value.coin, need, cpb, o.size, what));
+        }
+        if i > 0 && !o.value.assets.is_empty() {
+            if o.value.coin >= boundary as u128 {
+                ctx.hit("boundary:token-change-coin-at-or-above");
+            } else {
+                ctx.hit("boundary:token-change-coin-below");
+            }
+        }
+    }
+}
+
 pub fn scenario(name: &str, tier: Tier) -> Option<BoxedScenario> {
     Some(match name {
+        "change_boundary" => Box::new(sc_change_boundary),
         "min_ada" => Box::new(sc_min_ada),
         "output_builder" => Box::new(sc_output_builder),
         _ => return crate::builder::scenario_for(P, name, tier),
@@ -305,12 +401,12 @@ pub fn scenario(name: &str, tier: Tier) -> Option<BoxedScenario> {
 
 pub fn run(tier: Tier, seed: u64) -> i32 {
     let mut rep = Report::new(P, tier, seed);
-    rep.rule = "function part: 7 address kinds x 32 coins (width classes and neighbours) x 69 asset bundles (names 0..32 bytes) x 4 datum options x 4 script-ref options x 24 coins-per-byte values derived per output to land on/around every CBOR width boundary and the u64 overflow edge; builder part: every output of every transaction produced by the builder exploration; distinct = distinct argument tuples / distinct builder states".into();
+    rep.rule = "function part: 7 address kinds x 32 coins (width classes and neighbours) x 69 asset bundles (names 0..32 bytes) x 4 datum options x 4 script-ref options x 24 coins-per-byte values derived per output to land on/around every CBOR width boundary and the u64 overflow edge; change_boundary: token change with the price per byte derived so that the change output's minimum lands just below 2^16 / 2^32 (3 bundles x 3 change addresses x 3 prices) and the input coin swept in 50-lovelace steps across the boundary x 2 balancing methods; builder part: every output of every transaction produced by the builder exploration; distinct = distinct argument tuples / distinct builder states".into();
     rep.assume("raw pass-through setters (set_collateral_return, set_total_collateral) validate nothing by design and are not in the alphabet");
     rep.trusted_base = vec!["harness/src/refcbor.rs for serialized sizes".into(), "min-UTxO rule coins_per_byte x (160 + |output|) (Babbage/Conway ledger)".into()];
-    rep.required_hits = vec!["min-ada-ok", "min-ada-err-on-overflow", "coin-width-grew", "add_output-accepts", "add_output-rejects", "output-builder-ok"];
+    rep.required_hits = vec!["min-ada-ok", "min-ada-err-on-overflow", "coin-width-grew", "add_output-accepts", "add_output-rejects", "output-builder-ok", "boundary:built", "boundary:balancing-refuses", "boundary:token-change-coin-at-or-above", "boundary:token-change-coin-below"];
     let opts = Opts::new(seed);
-    for name in ["min_ada", "output_builder"] {
+    for name in ["min_ada", "output_builder", "change_boundary"] {
         let f = scenario(name, tier).unwrap();
         let st = explore(name, &*f, &opts);
         rep.add(name, "full product", st);
